@@ -94,6 +94,10 @@ func readPointsFromIO(data io.ReadCloser, points chan<- edge.PointMessage, preci
 		if err != nil {
 			return err
 		}
+		if len(mps) == 0 {
+			// A blank line or a line protocol comment yields no point and no error.
+			return fmt.Errorf("invalid replay file format, expected a point")
+		}
 		mp := mps[0]
 
 		mpfields, err := mp.Fields()
